@@ -47,6 +47,14 @@ def instances(tier, seed):
         for occ in itertools.product((0, 1), repeat=3):
             out.append(dict(op="product", kinds=kinds2, parents=list(par), counts=list(cnt), occ=list(occ), label="product state %s parents=%s occ=%s" % ("".join(kinds2), list(par), list(occ)),
                             key="product"))
+    # complex states: the bra must be conjugated on EVERY node of the path between two sites (non-neighbouring pairs included)
+    cplx = [((0, 1), (1, 1, 1)), ((0, 0), (1, 1, 1))]
+    if tier == "thorough":
+        cplx += [((0, 1, 2), (1, 1, 0, 1)), ((0, 0, 1), (1, 0, 1, 1))]
+    for par, cnt in cplx:
+        for op in ("rdm2", "rdm1"):
+            out.append(dict(op=op, kinds=kinds, parents=list(par), counts=list(cnt), cplx=True, bond=(2 if tier == "thorough" else 2), run_opts=dict(budget_s=120.0),
+                            label="%s complex state parents=%s counts=%s" % (op, list(par), list(cnt)), key="%s/complex" % op))
     # labelled trees (one label component = electron number): block-wise decompositions, additions and operator application in a sector
     lab = [(("e", "e", "e"), (0, 0), (1, 1, 1)), (("e", "e", "e"), (0, 1), (1, 1, 1)), (("e", "e", "e"), (0, 0, 0), (0, 1, 1, 1)), (("e", "e", "e"), (0,), (2, 1)),
            (("e", "w", "e"), (0, 0), (1, 1, 1))]
@@ -131,7 +139,7 @@ def make_harness(P):
                 ref = np.kron(ref, e)
             ctx.check("product state: dense vector", ctx.eq(v, ref))
             return
-        a = treelib.build_ttns(ctx, "a", tree, 2)
+        a = treelib.build_ttns(ctx, "a", tree, P.get("bond", 2), kind=("cplx" if P.get("cplx") else "real"))
         va = treelib.dense_ttns(a)
         undo = None
         if ctx.symbolic:
